@@ -280,6 +280,7 @@ def run(run, ix, tier):
     check_break_escalation(run, ix)
     check_agm_iteration(run, ix)
     check_zero_tolerance(run, ix)
+    check_float_estimates(run, ix)
     # ---- T-R5 / T-R6: iteration and precision caps --------------------------------
     run.rule('T-R5', floor=18, desc='loops that rely on a cap keep it inside the loop')
     run.rule('T-R6', floor=18, desc='the cap comparison is not made infeasible by a clamp')
@@ -886,3 +887,93 @@ def check_generator_term_bound(run, ix):
                                      'counter, no factorial decay, and the number of terms is not bounded before: it ends only '
                                      'when the terms have decayed, after a number of terms set by the argument '
                                      '(primezeta(mpc(2**-40, 1)) needs 7e13 evaluations of zeta)', line=g.node.lineno))
+
+
+# --------------------------------------------------------------------------- T-R15
+def check_float_estimates(run, ix):
+    """T-R15 (fourth C24 hunt; repair 77a2f5d).  The Riemann-Siegel code estimates its error terms with Python floats:
+    `math.pow(9, sigma)`, `math.pow(2, -sigma)` with sigma taken from the argument.  A float power with an exponent that
+    is not a constant overflows for a finite argument (|sigma| > 323) and raises OverflowError, which is neither among
+    the documented exceptions nor what the callers of the Riemann-Siegel entry points catch (zeta and siegelz fall back
+    on NotImplementedError).  Decided: every @defun entry point of rszeta.py from which a `math.pow` / `math.exp` with a
+    non-constant exponent is reachable inside the module makes its calls inside a `try` that has a handler for
+    OverflowError (or ArithmeticError / Exception) which raises one of the documented exceptions."""
+    REL = 'mpmath/functions/rszeta.py'
+    DOCUMENTED = ('NotImplementedError', 'ValueError', 'ZeroDivisionError', 'NoConvergence', 'ctx.NoConvergence')
+    run.rule('T-R15', floor=2, desc='float estimates with argument-dependent exponents: OverflowError becomes a documented exception')
+    m = ix.module(REL)
+    top = dict((f.name, f) for f in m.funcs.values() if f.parent is None)
+
+    def risky_here(f):
+        out = []
+        for c in _walk_own(f.node):
+            if isinstance(c, ast.Call) and norm(c.func) in ('math.pow', 'math.exp') and c.args:
+                e = c.args[-1]
+                if not all(isinstance(y, (ast.Constant, ast.UnaryOp, ast.BinOp, ast.operator, ast.unaryop, ast.Load))
+                           for y in ast.walk(e)):
+                    out.append(c)
+        return out
+    reach = {}
+
+    def reaches(name, seen=()):
+        if name in reach:
+            return reach[name]
+        f = top[name]
+        r = bool(risky_here(f))
+        if not r:
+            for c in _walk_own(f.node):
+                if isinstance(c, ast.Call):
+                    callee = None
+                    if isinstance(c.func, ast.Name) and c.func.id in top:
+                        callee = c.func.id
+                    elif isinstance(c.func, ast.Attribute) and norm(c.func.value) == 'ctx' and c.func.attr in top:
+                        callee = c.func.attr
+                    if callee and callee != name and callee not in seen and reaches(callee, seen + (name,)):
+                        r = True
+                        break
+        reach[name] = r
+        return r
+    entries = [f for f in top.values() if any(norm(d) == 'defun' for d in f.node.decorator_list)]
+    if not entries:
+        raise AnalysisError('rszeta: no @defun entry points')
+    n = 0
+    for f in sorted(entries, key=lambda f: f.lineno):
+        calls = []
+        for c in _walk_own(f.node):
+            if isinstance(c, ast.Call):
+                callee = c.func.id if isinstance(c.func, ast.Name) and c.func.id in top else \
+                    c.func.attr if isinstance(c.func, ast.Attribute) and norm(c.func.value) == 'ctx' and c.func.attr in top else None
+                if callee and callee != f.name and reaches(callee):
+                    calls.append(c)
+        calls += risky_here(f)
+        if not calls:
+            continue
+        n += 1
+        bad = None
+        for c in calls:
+            ok = False
+            p_ = c
+            while p_ is not f.node:
+                par = p_._parent
+                if isinstance(par, ast.Try) and any(p_ is b for b in par.body):
+                    for h in par.handlers:
+                        names = [norm(x) for x in (h.type.elts if isinstance(h.type, ast.Tuple) else [h.type])] \
+                            if h.type is not None else ['BaseException']
+                        if set(names) & {'OverflowError', 'ArithmeticError', 'Exception', 'BaseException'}:
+                            raises = [r for b in h.body for r in ast.walk(b) if isinstance(r, ast.Raise) and r.exc is not None]
+                            if raises and all(norm(r.exc.func if isinstance(r.exc, ast.Call) else r.exc) in DOCUMENTED
+                                              for r in raises):
+                                ok = True
+                p_ = par
+            if not ok and bad is None:
+                bad = c
+        if bad is None:
+            run.ok('T-R15', '%s: float estimates run under a handler that turns OverflowError into a documented exception' % f.qualname)
+        else:
+            run.fail(Finding('T-R15', REL, f.qualname, norm(bad),
+                             'a float power with an exponent taken from the argument (math.pow(9, sigma)) is reachable from '
+                             'this entry point outside any handler for OverflowError: siegelz(110000+330j) at 53 bits and '
+                             'zeta(325+1.7e6j) at 3300 bits raise OverflowError instead of falling back (their callers catch '
+                             'NotImplementedError only)', line=bad.lineno))
+    if n < 2:
+        raise AnalysisError('T-R15: fewer than two Riemann-Siegel entry points reach a float estimate (%d)' % n)
